@@ -225,11 +225,76 @@ class Check:
 
     def run_model(self, mode, req="req.txt", outname="model.txt", extra=(), timeout=3600):
         with open(os.path.join(self.work, req), "rb") as fin, open(os.path.join(self.work, outname), "wb") as fout:
-            p = subprocess.run([MODEL, mode] + list(extra), stdin=fin, stdout=fout, stderr=subprocess.PIPE, timeout=timeout)
+            try:
+                p = subprocess.run([MODEL, mode] + list(extra), stdin=fin, stdout=fout, stderr=subprocess.PIPE, timeout=timeout)
+            except subprocess.TimeoutExpired:
+                self.violation("model:" + mode + ":timeout", "the model driver did not finish within %d s" % timeout,
+                               {"kind": "obligation", "obligation": "rinkmodel " + mode}, found=False)
+                return False
         if p.returncode != 0:
             self.violation("model:" + mode, "model driver failed",
                            {"kind": "obligation", "obligation": "rinkmodel " + mode, "output": p.stderr.decode()[-2000:]}, found=False)
             return False
+        return True
+
+    def run_model_chunked(self, mode, req="req.txt", outname="model.txt", extra=(), group_start=None, chunk_lines=400,
+                          chunk_timeout=180, session_timeout=40):
+        """Runs the model driver over the request stream in parallel chunks that respect session
+        boundaries, each with a time limit.  A chunk that exceeds it is re-run session by session;
+        a session that still exceeds its limit is answered `unsupported model-timeout` line by line
+        (the model is an unbounded-precision evaluator and has no budget of its own)."""
+        from concurrent.futures import ThreadPoolExecutor
+        R = open(os.path.join(self.work, req), encoding="utf-8", errors="replace").read().split("\n")
+        if R and R[-1] == "":
+            R.pop()
+        starts = [i for i, l in enumerate(R) if (l.startswith(group_start) if group_start else True)]
+        if not starts or starts[0] != 0:
+            starts = [0] + starts
+        sessions = [(a, b) for a, b in zip(starts, starts[1:] + [len(R)]) if b > a]
+        chunks, cur = [], []
+        for se in sessions:
+            cur.append(se)
+            if cur[-1][1] - cur[0][0] >= chunk_lines:
+                chunks.append(cur)
+                cur = []
+        if cur:
+            chunks.append(cur)
+        timeouts = [0]
+
+        def run_lines(a, b, limit):
+            data = ("\n".join(R[a:b]) + "\n").encode()
+            try:
+                p = subprocess.run([MODEL, mode] + list(extra), input=data, stdout=subprocess.PIPE, stderr=subprocess.PIPE, timeout=limit)
+            except subprocess.TimeoutExpired:
+                return None
+            out = p.stdout.decode("utf-8", "replace").split("\n")
+            if out and out[-1] == "":
+                out.pop()
+            if p.returncode != 0 or len(out) != b - a:
+                return None
+            return out
+
+        def run_chunk(ch):
+            a, b = ch[0][0], ch[-1][1]
+            out = run_lines(a, b, chunk_timeout)
+            if out is not None:
+                return out
+            res = []
+            for (x, y) in ch:
+                o = run_lines(x, y, session_timeout)
+                if o is None:
+                    timeouts[0] += 1
+                    o = ["unsupported model-timeout"] * (y - x)
+                res += o
+            return res
+
+        with ThreadPoolExecutor(max_workers=12) as ex:
+            parts = list(ex.map(run_chunk, chunks))
+        with open(os.path.join(self.work, outname), "w", encoding="utf-8") as f:
+            for pch in parts:
+                for l in pch:
+                    f.write(l + "\n")
+        self.coverage["model_sessions_timed_out"] = timeouts[0]
         return True
 
     def diff_streams(self, group_start=None, req="req.txt", impl="impl.txt", model="model.txt", max_report=5):
@@ -324,12 +389,12 @@ def unhex(h):
 
 def decode_req(line):
     p = line.split(" ")
-    if p and p[0] in ("eval", "evalp") and len(p) >= 2:
+    if p and p[0] in ("eval", "evalp", "evalt") and len(p) >= 2:
         return unhex(p[1])
     return line
 
 
-def eval_stream(c, gen_sub, independent=True, budget_ms=3000, gen_extra=(), judge=None, group_start=None, corpus=None):
+def eval_stream(c, gen_sub, independent=True, budget_ms=3000, gen_extra=(), judge=None, group_start=None, corpus=None, ans_taint=False):
     """dump registry, generate requests, run implementation and model, compare.
     expect.txt (optional, aligned with req.txt) is the model-independent property oracle:
     `err` means any error class; `-` means no expectation; anything else must match exactly.
@@ -345,7 +410,10 @@ def eval_stream(c, gen_sub, independent=True, budget_ms=3000, gen_extra=(), judg
     args = ["--budget-ms=%d" % budget_ms] + (["--independent"] if independent else [])
     if not c.run_harness("eval-run", extra=args, timeout=7200):
         return None
-    if not c.run_model("eval", extra=[os.path.join(c.work, "registry.dump")]):
+    if group_start:
+        if not c.run_model_chunked("eval", extra=[os.path.join(c.work, "registry.dump")], group_start=group_start):
+            return None
+    elif not c.run_model("eval", extra=[os.path.join(c.work, "registry.dump")], timeout=1500):
         return None
     rd = lambda n: open(os.path.join(c.work, n), encoding="utf-8", errors="replace").read().split("\n")
     R, I, M = rd("req.txt"), rd("impl.txt"), rd("model.txt")
@@ -373,9 +441,11 @@ def eval_stream(c, gen_sub, independent=True, budget_ms=3000, gen_extra=(), judg
     start = 0
     flagged = set()
     kinds = {}
+    tainted = False
     for i in range(n):
         if group_start and R[i].startswith(group_start):
             start = i
+            tainted = False
         text = decode_req(R[i])
         hist = [decode_req(x) for x in R[start:i + 1]] if group_start else [text]
         key = " ;; ".join(hist)
@@ -400,14 +470,25 @@ def eval_stream(c, gen_sub, independent=True, budget_ms=3000, gen_extra=(), judg
                 oracle_checked += 0
             if aux is not None:
                 oracle_checked += 1
-        if bad is None and I[i] in ("panic", "abort", "timeout"):
+        if bad == "ignore":
+            # the judge accepts this outcome and takes the line out of the comparison (C04: a
+            # time-out on an input whose exact result is astronomically large)
+            skipped += 1
+            tainted = True
+            continue
+        if bad is None and I[i].split(" ")[0] in ("panic", "abort", "timeout"):
             bad = "implementation answered %r" % I[i]
         if bad:
             flagged.add(i)
             c.violation(key, "input %r: %s" % (text[:200], bad),
                         {"kind": "input" if not group_start else "history", "input": text, "history": hist,
                          "impl": I[i], "model": M[i], "expected": E[i] if E else None}, found=True)
-        if M[i].startswith("unsupported"):
+        if M[i].startswith("unsupported") or I[i].split(" ")[0] in ("panic", "abort", "timeout"):
+            # from here on the model's `ans` may differ from the implementation's
+            tainted = True
+            skipped += 1
+            continue
+        if ans_taint and tainted and group_start and re.search(r"ans|_", text, re.I):
             skipped += 1
             continue
         validated += 1
